@@ -116,7 +116,7 @@ class C04:
         return _strategy()
 
     def examples(self, tier):
-        return 3000 if tier == "quick" else 100000
+        return 3000 if tier == "quick" else 500000
 
     def enumerate(self, tier):
         # two-CA grid: all orderings x AAC x timing edges, equal preferred address in the veto range and the immediate range
